@@ -41,6 +41,7 @@ fn main() {
         "C19" => sc_nested::record_c19(&mut rng, count, &mut out),
         "C04" => sc_nested::record_c04(&mut rng, count, &mut out),
         "C14" => sc_nested::record_c14(&mut rng, count, &mut out),
+        "C16" => sc_cov::record_c16(&mut rng, count, &mut out),
         "CONE" => sc_cov::record_cone(&mut rng, count, &mut out),
         "C07" => sc_bmoc::record_c07(&mut rng, count, &mut out),
         "C08" => sc_bmoc::record_c08(&mut rng, count, &mut out),
@@ -72,6 +73,7 @@ fn main() {
           "C19" => sc_nested::replay_c19(&v, &mut out, &mut stats),
           "C04" => sc_nested::replay_c04(&v, &mut out, &mut stats),
           "C14" => sc_nested::replay_c14(&v, &mut out, &mut stats),
+          "C16a" => sc_cov::replay_lookup(&v, &mut out, &mut stats),
           "CONE" => sc_cov::replay_cone(&v, &mut out, &mut stats, &mut rrng),
           "BMOC" => sc_bmoc::replay_bmoc(&v, &mut out, &mut stats, &mut bregs),
           "C17" => sc_proj::replay_c17(&v, &mut out, &mut stats),
